@@ -298,7 +298,8 @@ class Array:
             name_value = utils.parse_single_struct_token('=' + iterable.typecode)
             if name_value is None:
                 raise ValueError(f"Cannot extend from array with typecode {iterable.typecode}.")
-            other_dtype = dtype_register.get_dtype(*name_value, scale=None)
+            # The width comes from the array itself: the platform's size for a typecode (e.g. 'l') can differ from the struct standard size.
+            other_dtype = dtype_register.get_dtype(name_value[0], iterable.itemsize * 8, scale=None)
             if self._dtype.name != other_dtype.name or self._dtype.length != other_dtype.length:
                 raise ValueError(
                     f"Cannot extend an Array with format '{self._dtype}' from an array with typecode '{iterable.typecode}'.")
